@@ -64,6 +64,7 @@ P100Ok(it) == /\ IsNumber(it.p100)
 FmtGenOk(it) ==
   /\ IsNumber(it.x)
   /\ SigDigits(it.x) <= 15
+  /\ ~(it.x.neg /\ IsZero(it.x))             \* negative zero is not driven: whether it "has a sign" is not stated
   /\ it.rt                                   \* f64::to_string(parse(s)) = s: s is the shortest form
   /\ it.s = NumText(it.x)
   /\ it.k \in 0..KMax /\ it.th \in BOOLEAN /\ it.pct \in BOOLEAN
